@@ -14,7 +14,7 @@ import itertools
 import numpy as np
 
 from ..poly import z3mod
-from ..tv import Compiled, hold_terms
+from ..tv import Compiled, hold_terms, project_block
 from .. import detgen
 from ..towers import tower_theorem, all_betas
 from ..smt import HarnessError, fval
@@ -99,24 +99,12 @@ def run_model(spec, ses):
     if not tol:
         for bi, blk in enumerate(blocks):
             loc = sorted(blk['locals'])
-            bc = cp.block_cons(blk, vs)
             nonlin = bool(blk['cones'] or blk.get('pcones') or blk.get('xcones'))
             label = '%s/block%d(%dr,%dl%s)' % (name, bi, len(blk['rows']), len(loc), ',cone' if nonlin else '')
-            q = z3.ForAll([vs[j] for j in loc], z3.Not(z3.And(bc))) if loc else z3.Not(z3.And(bc))
-            res, model = ses.oblige(label, S + Sdefs, [q], kind=('projection-nra' if nonlin else 'projection-lra'),
-                                    core=not nonlin, twin=(bi == 0), timeout_ms=(8000 if ses.tier == 'quick' and nonlin else 40000),
-                                    sample=dict(model=name, rows=len(blk['rows']), locals=len(loc), nonlinear=nonlin))
-            if res == 'unknown' and loc:
-                # second attempt: exact elimination of the locals defined by equality rows (equivalent block, fewer
-                # universally quantified columns)
-                ses.retract(label, ('projection-nra' if nonlin else 'projection-lra'), not nonlin)
-                vs2, rem = cp.eliminated(blk, vs)
-                bc2 = cp.block_cons(blk, vs2)
-                q2 = z3.ForAll([vs[j] for j in rem], z3.Not(z3.And(bc2))) if rem else z3.Not(z3.And(bc2))
-                res, model = ses.oblige(label + '/eliminated', S + Sdefs, [q2],
-                                        kind=('projection-nra' if nonlin else 'projection-lra'), core=not nonlin, twin=False,
-                                        timeout_ms=(8000 if ses.tier == 'quick' and nonlin else 40000),
-                                        sample=dict(model=name, rows=len(blk['rows']), locals=len(rem), nonlinear=nonlin))
+            res, model = project_block(ses, cp, blk, vs, S + Sdefs, label, ('projection-nra' if nonlin else 'projection-lra'),
+                                       not nonlin, twin=(bi == 0),
+                                       timeout_ms=(8000 if ses.tier == 'quick' and nonlin else 40000),
+                                       sample=dict(model=name, rows=len(blk['rows']), locals=len(loc), nonlinear=nonlin))
             if res == 'unsat' and loc:
                 ses.stats.nontrivial.add(name)
             if res == 'sat':
